@@ -124,7 +124,7 @@ func (g *Gen) verifyFunction(fn *ssa.Function, sp *FuncSpec) *FnCtx {
 		r := retInfo{block: nil, seq: 1 << 30, guard: exitG, res: res, state: exitSt}
 		fc.exit = &r
 		renv := fr.specEnv(r.state, nil, nil)
-		renv.lookup = func(n string) (Val, bool) { return fr.lookupExitLocal(n, r.state) }
+		renv.lookup = func(n string, st *State) (Val, bool) { return fr.lookupExitLocal(n, st) }
 		for i, v := range r.res {
 			renv.names[fmt.Sprintf("result%d", i)] = v
 			if i < len(rnames) && rnames[i] != "" && rnames[i] != "_" {
@@ -380,6 +380,13 @@ func (fc *FnCtx) buildQuery(o *Oblig) string {
 		sb.WriteString("(assert ")
 		sb.WriteString(d)
 		sb.WriteString(")\n")
+	}
+	if !o.Cover {
+		for _, d := range fc.defsQ {
+			sb.WriteString("(assert ")
+			sb.WriteString(d)
+			sb.WriteString(")\n")
+		}
 	}
 	for _, a := range fc.assumes {
 		if o.block == nil || a.block == o.block && a.seq < o.seq || fc.anc[o.block][a.block] {
